@@ -21,7 +21,10 @@ Proof. induction u as [|a u IH]; destruct v as [|b v]; simpl; try reflexivity. n
 Lemma anti_parity_sym : forall u v, anti_parity u v = anti_parity v u.
 Proof. induction u as [|a u IH]; destruct v as [|b v]; simpl; try reflexivity. now rewrite IH, q_commute_sym. Qed.
 Lemma rel_sym g u v : rel g u v = rel g v u.
-Proof. destruct g; simpl; unfold commuting, anticommuting; now rewrite ?qwc_sym, ?(anti_parity_sym u v). Qed.
+Proof.
+  destruct g; simpl; unfold commuting, anticommuting;
+    [apply qwc_sym | now rewrite (anti_parity_sym u v) | apply anti_parity_sym].
+Qed.
 
 Lemma qwc_anti_parity : forall u v, qwc u v = true -> anti_parity u v = false.
 Proof.
@@ -85,8 +88,8 @@ Proof.
 Qed.
 Lemma fold_xorb_acc l : forall a, fold_left xorb l a = xorb a (fold_left xorb l false).
 Proof.
-  induction l as [|x l IH]; intro a; simpl; [now rewrite xorb_false_r|].
-  rewrite (IH (xorb a x)), (IH x). now rewrite xorb_assoc.
+  induction l as [|x l IH]; intro a; cbn [fold_left]; [now rewrite xorb_false_r|].
+  rewrite (IH (xorb a x)), (IH (xorb false x)), xorb_false_l. now rewrite xorb_assoc.
 Qed.
 Lemma or_reduce_ac : forall v u, or_reduce (ac_list v u) = negb (qwc v u).
 Proof.
@@ -95,8 +98,8 @@ Proof.
 Qed.
 Lemma xor_reduce_ac : forall v u, xor_reduce (ac_list v u) = anti_parity v u.
 Proof.
-  unfold xor_reduce, ac_list. induction v as [|b v IH]; destruct u as [|a u]; simpl; try reflexivity.
-  now rewrite fold_xorb_acc, IH.
+  unfold xor_reduce, ac_list. induction v as [|b v IH]; destruct u as [|a u]; try reflexivity.
+  cbn [combine map fold_left anti_parity fst snd]. now rewrite fold_xorb_acc, IH, xorb_false_l.
 Qed.
 Lemma entry_pint g u v : entry g (map pint u) (map pint v) = negb (rel g u v).
 Proof.
@@ -129,4 +132,409 @@ Proof.
   set (G := fun wj => negb (rel g (nth i ws []) wj)).
   rewrite (nth_indep (map G ws) false (G [])) by now rewrite map_length.
   now rewrite map_nth.
+Qed.
+
+(* ================================================================== partition from a colouring *)
+Definition gflat (gs : list (Z * list nat)) : list nat := concat (map snd gs).
+(* every member of a group carries the group's colour *)
+Definition coloured (cols : list Z) (gs : list (Z * list nat)) : Prop :=
+  Forall (fun cl => Forall (fun i => nth_error cols i = Some (fst cl)) (snd cl)) gs.
+
+Lemma ins_perm c i gs : Permutation (gflat (ins c i gs)) (i :: gflat gs).
+Proof.
+  unfold gflat. induction gs as [|[c' l] r IH]; simpl; [constructor; constructor|].
+  destruct (c =? c')%Z; simpl.
+  - rewrite <- app_assoc. simpl. apply Permutation_sym, Permutation_middle.
+  - rewrite IH. change (i :: l ++ concat (map snd r)) with ((i :: l) ++ concat (map snd r)).
+    rewrite (Permutation_app_comm l (i :: concat (map snd r))). simpl. constructor. apply Permutation_app_comm.
+Qed.
+Lemma ins_coloured cols c i gs : coloured cols gs -> nth_error cols i = Some c -> coloured cols (ins c i gs).
+Proof.
+  unfold coloured. induction gs as [|[c' l] r IH]; simpl; intros H Hi.
+  - constructor; [|constructor]. simpl. constructor; [assumption|constructor].
+  - inversion H as [|? ? H1 H2]; subst. destruct (c =? c')%Z eqn:E.
+    + apply Z.eqb_eq in E; subst. constructor; [|assumption]. simpl in *.
+      apply Forall_app; split; [assumption|]. constructor; [assumption|constructor].
+    + constructor; [assumption|]. now apply IH.
+Qed.
+Lemma build_perm : forall cols i gs,
+  Permutation (gflat (build_from i cols gs)) (gflat gs ++ seq i (length cols)).
+Proof.
+  induction cols as [|c r IH]; intros i gs; simpl; [now rewrite app_nil_r|].
+  rewrite IH, ins_perm. simpl. apply Permutation_middle.
+Qed.
+Lemma build_coloured : forall cols pre gs, coloured (pre ++ cols) gs ->
+  coloured (pre ++ cols) (build_from (length pre) cols gs).
+Proof.
+  induction cols as [|c r IH]; intros pre gs H; simpl; [assumption|].
+  replace (pre ++ c :: r) with ((pre ++ [c]) ++ r) in * by now rewrite <- app_assoc.
+  replace (S (length pre)) with (length (pre ++ [c])) by (rewrite app_length; simpl; lia).
+  apply IH. apply ins_coloured; [assumption|].
+  rewrite <- app_assoc. simpl. rewrite nth_error_app2 by lia. now rewrite Nat.sub_diag.
+Qed.
+
+Lemma idx_partitions_perm cols : Permutation (concat (idx_partitions cols)) (seq 0 (length cols)).
+Proof. unfold idx_partitions. apply (build_perm cols 0 []). Qed.
+Lemma idx_partitions_coloured cols g : In g (idx_partitions cols) ->
+  exists c, Forall (fun i => nth_error cols i = Some c) g.
+Proof.
+  unfold idx_partitions. intro H. apply in_map_iff in H as [[c l] [E H]]. simpl in E; subst.
+  pose proof (build_coloured cols [] [] (Forall_nil _)) as HC. simpl in HC.
+  unfold coloured in HC. rewrite Forall_forall in HC. exists c. apply (HC _ H).
+Qed.
+
+Lemma NoDup_app_l {A} (a b : list A) : NoDup (a ++ b) -> NoDup a.
+Proof. induction a as [|x a IH]; simpl; intro H; [constructor|]. inversion H; subst. constructor; [|auto]. intro; apply H2, in_or_app; now left. Qed.
+Lemma NoDup_app_r {A} (a b : list A) : NoDup (a ++ b) -> NoDup b.
+Proof. induction a as [|x a IH]; simpl; intro H; [assumption|]. inversion H; auto. Qed.
+Lemma NoDup_concat_in {A} (gs : list (list A)) g : NoDup (concat gs) -> In g gs -> NoDup g.
+Proof.
+  induction gs as [|h r IH]; simpl; intros H Hin; [contradiction|]. destruct Hin as [E|Hin]; subst.
+  - eapply NoDup_app_l; eauto.
+  - apply IH; [eapply NoDup_app_r; eauto | assumption].
+Qed.
+Lemma FOP_of_nodup {A} (R : A -> A -> Prop) l :
+  NoDup l -> (forall x y, In x l -> In y l -> x <> y -> R x y) -> ForallOrdPairs R l.
+Proof.
+  induction l as [|a l IH]; intros Hn H; [constructor|]. inversion Hn; subst. constructor.
+  - rewrite Forall_forall. intros y Hy. apply H; simpl; auto. intro; subst; contradiction.
+  - apply IH; [assumption|]. intros; apply H; simpl; auto.
+Qed.
+
+Lemma properb_spec adj cols : properb adj cols = true ->
+  length cols = length adj /\
+  forall i j, i < j -> j < length adj -> adjb adj i j = true -> nth i cols 0%Z <> nth j cols 0%Z.
+Proof.
+  unfold properb. intro H. apply andb_true_iff in H as [H1 H2]. apply Nat.eqb_eq in H1. split; [assumption|].
+  intros i j Hij Hj Ha. rewrite forallb_forall in H2.
+  assert (Hi : In i (seq 0 (length adj))) by (apply in_seq; lia).
+  specialize (H2 i Hi). rewrite forallb_forall in H2.
+  assert (Hj' : In j (seq 0 (length adj))) by (apply in_seq; lia).
+  specialize (H2 j Hj'). rewrite Ha in H2. apply Nat.ltb_lt in Hij. rewrite Hij in H2. simpl in H2.
+  apply negb_true_iff, Z.eqb_neq in H2. assumption.
+Qed.
+
+Lemma adj_matrix_length g ws : length (adj_matrix g (symp_matrix ws)) = length ws.
+Proof. unfold adj_matrix, symp_matrix. now rewrite !map_length. Qed.
+
+Lemma partition_from_proper_colouring_l : forall g n ws cols,
+  Forall (fun w => length w = n) ws ->
+  properb (adj_matrix g (symp_matrix ws)) cols = true ->
+  Permutation (concat (idx_partitions cols)) (seq 0 (length ws)) /\
+  Forall (ForallOrdPairs (fun i j => rel g (nth i ws []) (nth j ws []) = true)) (idx_partitions cols).
+Proof.
+  intros g n ws cols Hlen Hp. apply properb_spec in Hp as [Hl Hp]. rewrite adj_matrix_length in Hl, Hp.
+  pose proof (idx_partitions_perm cols) as HP. rewrite Hl in HP. split; [assumption|].
+  assert (Hnd : NoDup (concat (idx_partitions cols))).
+  { apply (Permutation_NoDup (Permutation_sym HP)), seq_NoDup. }
+  rewrite Forall_forall. intros grp Hin.
+  destruct (idx_partitions_coloured cols grp Hin) as [c Hc]. rewrite Forall_forall in Hc.
+  apply FOP_of_nodup; [eapply NoDup_concat_in; eauto|].
+  intros i j Hi Hj Hne.
+  assert (Hb : forall k, In k grp -> k < length ws).
+  { intros k Hk. assert (In k (seq 0 (length ws))) as Hs.
+    { apply (Permutation_in k HP). apply in_concat. eauto. }
+    apply in_seq in Hs. lia. }
+  pose proof (Hb i Hi) as Bi. pose proof (Hb j Hj) as Bj.
+  assert (Ec : nth i cols 0%Z = nth j cols 0%Z).
+  { rewrite (nth_error_nth cols i 0%Z (Hc i Hi)), (nth_error_nth cols j 0%Z (Hc j Hj)). reflexivity. }
+  destruct (rel g (nth i ws []) (nth j ws [])) eqn:ER; [reflexivity|exfalso].
+  destruct (Nat.lt_total i j) as [Lt|[Eq|Gt]]; [|contradiction|].
+  - apply (Hp i j Lt Bj); [|assumption]. rewrite (adjb_adj_matrix g n ws i j Hlen Bi Bj), ER. reflexivity.
+  - apply (Hp j i Gt Bi); [|now symmetry]. rewrite (adjb_adj_matrix g n ws j i Hlen Bj Bi), rel_sym, ER. reflexivity.
+Qed.
+
+(* ================================================================== valid_grouping is sound *)
+Lemma count_nat_pos i l : count_nat i l = 1 -> In i l.
+Proof.
+  unfold count_nat. intro H. destruct (filter (Nat.eqb i) l) as [|x r] eqn:E; [discriminate|].
+  assert (In x (filter (Nat.eqb i) l)) as Hx by (rewrite E; now left).
+  apply filter_In in Hx as [Hx Hb]. apply Nat.eqb_eq in Hb. now subst.
+Qed.
+Lemma pairwiseb_FOP {A B} (r : B -> B -> bool) (f : A -> B) l :
+  pairwiseb r (map f l) = true -> ForallOrdPairs (fun i j => r (f i) (f j) = true) l.
+Proof.
+  induction l as [|a l IH]; simpl; intro H; [constructor|].
+  apply andb_true_iff in H as [H1 H2]. constructor; [|now apply IH].
+  rewrite forallb_forall in H1. rewrite Forall_forall. intros y Hy. apply H1. now apply in_map.
+Qed.
+Lemma pairwiseb_FOP_id {A} (r : A -> A -> bool) l :
+  pairwiseb r l = true -> ForallOrdPairs (fun u v => r u v = true) l.
+Proof. intro H. rewrite <- (map_id l) in H. now apply (pairwiseb_FOP r (fun x => x)) in H. Qed.
+
+Lemma valid_grouping_sound_l : forall r ws gs, valid_grouping r ws gs = true ->
+  Permutation (concat gs) (seq 0 (length ws)) /\
+  Forall (ForallOrdPairs (fun i j => r (nth i ws []) (nth j ws []) = true)) gs.
+Proof.
+  intros r ws gs H. unfold valid_grouping in H.
+  apply andb_true_iff in H as [H H3]. apply andb_true_iff in H as [H1 H2]. apply Nat.eqb_eq in H1. split.
+  - apply Permutation_sym, NoDup_Permutation_bis; [apply seq_NoDup | rewrite seq_length; lia |].
+    intros i Hi. rewrite forallb_forall in H2. apply count_nat_pos, Nat.eqb_eq, H2, Hi.
+  - rewrite forallb_forall in H3. rewrite Forall_forall. intros g Hg. apply pairwiseb_FOP, H3, Hg.
+Qed.
+
+(* ================================================================== coefficients travel *)
+Section Route.
+Context {A : Type}.
+Lemma find_pop_some : forall w (obs : list (word * A)) c r,
+  find_pop w obs = Some (c, r) -> Permutation obs ((w, c) :: r).
+Proof.
+  induction obs as [|[w' c'] t IH]; simpl; intros c r H; [discriminate|].
+  destruct (word_eqb w w') eqn:E.
+  - apply word_eqb_eq in E. inversion H; subst. apply Permutation_refl.
+  - destruct (find_pop w t) as [[c1 r1]|] eqn:F; [|discriminate]. inversion H; subst.
+    rewrite (IH _ _ eq_refl). apply perm_swap.
+Qed.
+Lemma find_pop_none : forall w (obs : list (word * A)), find_pop w obs = None -> ~ In w (map fst obs).
+Proof.
+  induction obs as [|[w' c'] t IH]; simpl; intros H; [tauto|].
+  destruct (word_eqb w w') eqn:E; [discriminate|].
+  destruct (find_pop w t) as [[c1 r1]|] eqn:F; [discriminate|].
+  intros [Eq|Hin]; [|now apply IH].
+  subst. assert (word_eqb w w = true) by now apply word_eqb_eq. congruence.
+Qed.
+
+Lemma combine_app_eq {B C} (a a' : list B) (b b' : list C) : length a = length b ->
+  combine (a ++ a') (b ++ b') = combine a b ++ combine a' b'.
+Proof. revert b. induction a as [|x a IH]; destruct b; simpl; intro H; try discriminate; [reflexivity|]. f_equal. apply IH. lia. Qed.
+
+Lemma route_group_spec : forall g (obs : list (word * A)) rest,
+  Permutation (g ++ rest) (map fst obs) ->
+  exists cs r, route_group g obs = (cs, r) /\ length cs = length g /\
+               Permutation (combine g cs ++ r) obs /\ Permutation rest (map fst r).
+Proof.
+  induction g as [|w g IH]; intros obs rest H; simpl.
+  - exists [], obs. repeat split; auto.
+  - destruct (find_pop w obs) as [[c obs']|] eqn:F.
+    + pose proof (find_pop_some _ _ _ _ F) as P.
+      assert (P' : Permutation (g ++ rest) (map fst obs')).
+      { apply (Permutation_map fst) in P. simpl in P. rewrite P in H. simpl in H.
+        eapply Permutation_cons_inv; eauto. }
+      destruct (IH obs' rest P') as [cs [r [E [L [P1 P2]]]]]. rewrite E.
+      exists (c :: cs), r. repeat split; simpl; auto.
+      rewrite P. constructor. assumption.
+    + exfalso. apply (find_pop_none _ _ F). apply (Permutation_in w H). simpl. now left.
+Qed.
+
+Lemma route_spec : forall gs (obs : list (word * A)) rest,
+  Permutation (concat gs ++ rest) (map fst obs) ->
+  map (@length _) (route gs obs) = map (@length _) gs /\
+  exists r, Permutation (combine (concat gs) (concat (route gs obs)) ++ r) obs /\ Permutation rest (map fst r).
+Proof.
+  induction gs as [|g gs IH]; intros obs rest H; simpl.
+  - split; [reflexivity|]. exists obs. split; auto.
+  - simpl in H. rewrite <- app_assoc in H.
+    destruct (route_group_spec g obs (concat gs ++ rest) H) as [cs [r [E [L [P1 P2]]]]]. rewrite E.
+    destruct (IH r rest P2) as [L2 [r2 [P3 P4]]]. simpl. split; [congruence|].
+    exists r2. split; [|assumption].
+    rewrite combine_app_eq by (symmetry; assumption). rewrite <- app_assoc, P3. assumption.
+Qed.
+
+Lemma coeffs_travel_l : forall gs (obs : list (word * A)),
+  Permutation (concat gs) (map fst obs) ->
+  map (@length _) (route gs obs) = map (@length _) gs /\
+  Permutation (combine (concat gs) (concat (route gs obs))) obs.
+Proof.
+  intros gs obs H. rewrite <- (app_nil_r (concat gs)) in H.
+  destruct (route_spec gs obs [] H) as [L [r [P1 P2]]]. split; [assumption|].
+  apply Permutation_nil in P2. destruct r; [|discriminate]. now rewrite app_nil_r in P1.
+Qed.
+End Route.
+
+(* ================================================================== diagonalising a qwc group *)
+(* f agrees with w wherever w is not the identity *)
+Definition covers (f w : word) : Prop := Forall2 (fun a p => p = PI \/ a = p) f w.
+(* f' keeps every non-identity letter of f *)
+Definition extends (f f' : word) : Prop := Forall2 (fun a b => a = PI \/ a = b) f f'.
+
+Lemma extends_refl f : extends f f.
+Proof. induction f; constructor; auto. Qed.
+Lemma extends_trans : forall f1 f2 f3, extends f1 f2 -> extends f2 f3 -> extends f1 f3.
+Proof.
+  intros f1 f2 f3 H. revert f3. induction H as [|a b l l' Hab H IH]; intros f3 H3; inversion H3; subst; constructor.
+  - destruct Hab as [|]; [now left|]. subst. assumption.
+  - now apply IH.
+Qed.
+Lemma covers_extends : forall f w f', covers f w -> extends f f' -> covers f' w.
+Proof.
+  intros f w f' H. revert f'. induction H as [|a p l l' Hap H IH]; intros f' He; inversion He; subst; constructor.
+  - destruct Hap as [|Hap]; [now left|]. subst. destruct H2 as [Hi|]; [|subst; now right].
+    subst. now left.
+  - now apply IH.
+Qed.
+Lemma merge_basis_spec : forall f w f', length f = length w -> merge_basis f w = Some f' ->
+  extends f f' /\ covers f' w.
+Proof.
+  induction f as [|a f IH]; destruct w as [|p w]; simpl; intros f' L H; try discriminate.
+  - inversion H; subst. split; constructor.
+  - destruct (merge_basis f w) as [r|] eqn:M; [|discriminate].
+    assert (L' : length f = length w) by lia. destruct (IH w r L' M) as [E C].
+    destruct p, a; simpl in H; inversion H; subst; split; constructor; auto.
+Qed.
+Lemma Forall2_length' {A B} (R : A -> B -> Prop) l l' : Forall2 R l l' -> length l = length l'.
+Proof. induction 1; simpl; congruence. Qed.
+
+Lemma full_word_inv : forall n g f0 f,
+  Forall (fun w => length w = n) g -> length f0 = n ->
+  fold_left (fun acc w => match acc with Some x => merge_basis x w | None => None end) g (Some f0) = Some f ->
+  extends f0 f /\ Forall (covers f) g.
+Proof.
+  induction g as [|w g IH]; simpl; intros f0 f Hg L H.
+  - inversion H; subst. split; [apply extends_refl|constructor].
+  - inversion Hg as [|? ? Lw Hg']; subst.
+    assert (L0 : length f0 = length w) by congruence.
+    destruct (merge_basis f0 w) as [f1|] eqn:M.
+    + destruct (merge_basis_spec f0 w f1 L0 M) as [E C].
+      assert (L1 : length f1 = length f0) by (symmetry; apply (Forall2_length' _ _ _ E)).
+      destruct (IH f1 f Hg' L1 H) as [E2 C2]. split; [eapply extends_trans; eauto|].
+      constructor; [eapply covers_extends; eauto | assumption].
+    + exfalso. clear -H. induction g as [|x g IHg]; simpl in H; [discriminate | auto].
+Qed.
+
+Lemma conj_word_covers : forall f w, covers f w -> conj_word (map gate_of f) w = (1%Z, diag_word w).
+Proof.
+  intros f w H. induction H as [|a p l l' Hap H IH]; [reflexivity|].
+  cbn [map conj_word diag_word]. fold (diag_word l'). rewrite IH.
+  destruct Hap as [E|E]; subst; [destruct a; reflexivity | destruct p; reflexivity].
+Qed.
+
+Lemma qwc_group_diagonalised_l : forall n g f, Forall (fun w => length w = n) g ->
+  full_word n g = Some f ->
+  forall w, In w g -> conj_word (map gate_of f) w = (1%Z, diag_word w).
+Proof.
+  intros n g f Hg H w Hw. unfold full_word in H.
+  destruct (full_word_inv n g (repeat PI n) f Hg (repeat_length PI n) H) as [_ C].
+  rewrite Forall_forall in C. apply conj_word_covers, C, Hw.
+Qed.
+
+(* the conjugation table against the 2x2 matrices: V p V^dagger = |V|^2 * sign * q with V = sqrt2 * U *)
+Lemma conj1_matrix_l : forall g p,
+  mmul (mmul (gmat g) (pmat p)) (mdag (gmat g)) = mscale (gnorm g * fst (conj1 g p)) (pmat (snd (conj1 g p))).
+Proof. intros [] []; reflexivity. Qed.
+Lemma gmat_unitary_l : forall g, mmul (gmat g) (mdag (gmat g)) = mscale (gnorm g) (pmat PI).
+Proof. intros []; reflexivity. Qed.
+
+(* a pairwise qwc group always has a common basis: diagonalize_qwc_pauli_words does not raise *)
+Lemma merge_basis_qwc_some : forall f w, length f = length w -> qwc f w = true ->
+  exists f', merge_basis f w = Some f'.
+Proof.
+  induction f as [|a f IH]; destruct w as [|p w]; simpl; intros L H; try discriminate; eauto.
+  apply andb_true_iff in H as [H1 H2]. destruct (IH w (eq_add_S _ _ L) H2) as [r E]. rewrite E.
+  destruct p, a; simpl in *; eauto; discriminate.
+Qed.
+Lemma merge_basis_qwc_pres : forall f w f', merge_basis f w = Some f' -> length f = length w ->
+  forall w', qwc f w' = true -> qwc w w' = true -> qwc f' w' = true.
+Proof.
+  induction f as [|a f IH]; destruct w as [|p w]; simpl; intros f' M L w' H1 H2; try discriminate.
+  - inversion M; subst. assumption.
+  - destruct (merge_basis f w) as [r|] eqn:E; [|discriminate].
+    destruct w' as [|b w']; [destruct p, a; simpl in M; inversion M; reflexivity|].
+    simpl in H1, H2. apply andb_true_iff in H1 as [A1 A2]. apply andb_true_iff in H2 as [B1 B2].
+    pose proof (IH w r E (eq_add_S _ _ L) w' A2 B2) as R.
+    destruct p, a; simpl in M; inversion M; subst; simpl; rewrite R, ?andb_true_r; assumption.
+Qed.
+Lemma full_word_exists_gen : forall n g f0, Forall (fun w => length w = n) g -> length f0 = n ->
+  ForallOrdPairs (fun u v => qwc u v = true) g -> Forall (fun w => qwc f0 w = true) g ->
+  exists f, fold_left (fun acc w => match acc with Some x => merge_basis x w | None => None end) g (Some f0) = Some f.
+Proof.
+  induction g as [|w g IH]; simpl; intros f0 Hg L HP HF; [eauto|].
+  inversion Hg as [|? ? Lw Hg']; inversion HP as [|? ? Hw HP']; inversion HF as [|? ? Fw HF']; subst.
+  assert (L0 : length f0 = length w) by congruence.
+  destruct (merge_basis_qwc_some f0 w L0 Fw) as [f1 M]. rewrite M.
+  destruct (merge_basis_spec f0 w f1 L0 M) as [E _].
+  apply IH; try assumption.
+  - symmetry. apply (Forall2_length' _ _ _ E).
+  - rewrite Forall_forall in *. intros w' Hin. eapply merge_basis_qwc_pres; eauto.
+Qed.
+Lemma qwc_id_l : forall n w, qwc (repeat PI n) w = true.
+Proof. intros. rewrite qwc_sym. apply qwc_id_r. Qed.
+Lemma qwc_group_has_basis_l : forall n g, Forall (fun w => length w = n) g ->
+  ForallOrdPairs (fun u v => qwc u v = true) g -> exists f, full_word n g = Some f.
+Proof.
+  intros n g Hg HP. unfold full_word. apply (full_word_exists_gen n g); auto using repeat_length.
+  rewrite Forall_forall. intros. apply qwc_id_l.
+Qed.
+
+(* ================================================================== group_observables, rustworkx path *)
+Lemma map_nth_seq {A} (d : A) l : map (fun i => nth i l d) (seq 0 (length l)) = l.
+Proof. induction l as [|a l IH]; simpl; [reflexivity|]. f_equal. rewrite <- seq_shift, map_map. exact IH. Qed.
+Lemma filter_partition_perm {A} (p : A -> bool) l :
+  Permutation (filter p l ++ filter (fun x => negb (p x)) l) l.
+Proof.
+  induction l as [|a l IH]; simpl; [constructor|]. destruct (p a); simpl.
+  - now constructor.
+  - apply Permutation_sym, Permutation_cons_app, Permutation_sym, IH.
+Qed.
+Lemma FOP_map {A B} (R : B -> B -> Prop) (f : A -> B) g :
+  ForallOrdPairs (fun i j => R (f i) (f j)) g -> ForallOrdPairs R (map f g).
+Proof.
+  induction 1 as [|a l H1 H2 IH]; simpl; constructor; [|assumption].
+  rewrite Forall_forall in *. intros y Hy. apply in_map_iff in Hy as [x [E Hx]]. subst. auto.
+Qed.
+Lemma FOP_all {A} (R : A -> A -> Prop) l : (forall x y, In x l -> In y l -> R x y) -> ForallOrdPairs R l.
+Proof.
+  induction l as [|a l IH]; intro H; constructor.
+  - rewrite Forall_forall. intros; apply H; simpl; auto.
+  - apply IH. intros; apply H; simpl; auto.
+Qed.
+Lemma FOP_app {A} (R : A -> A -> Prop) a b : ForallOrdPairs R a -> ForallOrdPairs R b ->
+  (forall x y, In x a -> In y b -> R x y) -> ForallOrdPairs R (a ++ b).
+Proof.
+  induction 1 as [|x l H1 H2 IH]; simpl; intros Hb Hc; [assumption|]. constructor.
+  - apply Forall_app; split; [assumption|]. rewrite Forall_forall. intros; apply Hc; simpl; auto.
+  - apply IH; [assumption|]. intros; apply Hc; simpl; auto.
+Qed.
+Lemma rel_id_r g u n : g <> ANTI -> rel g u (repeat PI n) = true.
+Proof.
+  destruct g; simpl; intro H; [apply qwc_id_r | unfold commuting; now rewrite anti_parity_id_r | congruence].
+Qed.
+
+Lemma group_observables_rx_sound_l : forall gt n obs cols,
+  Forall (fun o => length (fst o) = n) obs ->
+  with_wires obs <> [] ->
+  properb (adj_matrix gt (symp_matrix (with_wires obs))) cols = true ->
+  Forall (fun w => w = repeat PI n) (no_wires obs) ->
+  (gt <> ANTI \/ no_wires obs = []) ->
+  exists gs, group_observables obs (ORx cols) = Some gs /\
+             Permutation (concat gs) (map fst obs) /\
+             Forall (ForallOrdPairs (fun u v => rel gt u v = true)) gs.
+Proof.
+  intros gt n obs cols Hlen Hne Hp Hid Hanti.
+  assert (Hw : Forall (fun w => length w = n) (with_wires obs)).
+  { unfold with_wires. rewrite Forall_forall in *. intros w Hin. apply in_map_iff in Hin as [o [E Ho]].
+    subst. apply filter_In in Ho as [Ho _]. auto. }
+  destruct (partition_from_proper_colouring_l gt n _ cols Hw Hp) as [P F].
+  unfold group_observables. destruct (with_wires obs) as [|w0 wr] eqn:EW; [congruence|].
+  set (ws := w0 :: wr) in *. cbn [partition_observables]. unfold items_partitions.
+  destruct (idx_partitions cols) as [|g0 r] eqn:EI.
+  { simpl in P. apply Permutation_nil in P. discriminate. }
+  cbn [map]. eexists; split; [reflexivity|]. set (nt := fun i => nth i ws []) in *. split.
+  - cbn [concat].
+    assert (Q : Permutation (map nt g0 ++ concat (map (map nt) r)) ws).
+    { change (Permutation (concat (map (map nt) (g0 :: r))) ws). rewrite <- concat_map.
+      eapply Permutation_trans; [apply Permutation_map; exact P|].
+      unfold nt. rewrite map_nth_seq. apply Permutation_refl. }
+    rewrite <- app_assoc. rewrite (Permutation_app_comm (no_wires obs)), app_assoc. unfold nt in Q. rewrite Q.
+    rewrite <- EW. unfold with_wires, no_wires. rewrite <- map_app. apply Permutation_map.
+    apply filter_partition_perm.
+  - inversion F as [|? ? F0 Fr]; subst. constructor.
+    + apply FOP_app.
+      * apply FOP_map. exact F0.
+      * apply FOP_all. intros x y Hx Hy. destruct Hanti as [Ha|Ha]; [|rewrite Ha in Hx; contradiction].
+        rewrite Forall_forall in Hid. rewrite (Hid y Hy). now apply rel_id_r.
+      * intros x y Hx Hy. destruct Hanti as [Ha|Ha]; [|rewrite Ha in Hy; contradiction].
+        rewrite Forall_forall in Hid. rewrite (Hid y Hy). now apply rel_id_r.
+    + rewrite Forall_forall in *. intros g Hg. apply in_map_iff in Hg as [g' [E Hg']]. subst.
+      apply FOP_map. apply Fr. assumption.
+Qed.
+
+(* the corner that fails: a wire-less identity joins the first group also for `anticommuting` *)
+Lemma anticommuting_wireless_refuted_l :
+  exists obs cols gs,
+    properb (adj_matrix ANTI (symp_matrix (with_wires obs))) cols = true /\
+    group_observables obs (ORx cols) = Some gs /\
+    forallb (pairwiseb (rel ANTI)) gs = false.
+Proof.
+  exists [([PX], true); ([PZ], true); ([PI], false)], [0%Z; 0%Z], [[[PX]; [PZ]; [PI]]].
+  vm_compute. repeat split.
 Qed.
